@@ -27,9 +27,14 @@ fn unit_key(v: &Cbor) -> String {
 /// its serde implementation (the type has no accessor for its parts).
 pub fn unit_parts(c: &Compound) -> Result<Vec<(String, i64, i64)>, String> {
     let v = serde_cbor::value::to_value(c).map_err(|e| format!("cbor: {e}"))?;
+    parts_of_generic(&v)
+}
+
+/// The same for an already generic CBOR value (decoded bytes).
+pub fn parts_of_generic(v: &Cbor) -> Result<Vec<(String, i64, i64)>, String> {
     let mut out = Vec::new();
 
-    let names = match &v {
+    let names = match v {
         Cbor::Map(m) => m
             .iter()
             .find(|(k, _)| matches!(k, Cbor::Text(s) if s == "names"))
